@@ -518,15 +518,115 @@ fn directed(st: &mut Stats) -> Result<(), Fail> {
     Ok(())
 }
 
+/// The position argument of `chess-cli on-board` is the parser's untrusted input in the field:
+/// the real binary is started on byte strings (canonical FENs, the same with multi-byte
+/// characters inserted at every early byte offset, non-UTF-8 bytes, keyword-like prefixes,
+/// token soup). A panic of the process is a violation; a usage error, a clean exit or a
+/// started search is not.
+fn cli_args(seed: u64, n_generated: usize) -> Vec<Vec<u8>> {
+    let mut out: Vec<Vec<u8>> = vec![];
+    let bases: Vec<String> = ROOTS.iter().take(10).map(|s| s.to_string()).chain(["8/8/8/8/8/8/8/8 w - - 0 1".to_string(), "k7/8/8/8/8/8/8/K7 w - - 0 1".to_string()]).collect();
+    for b in &bases {
+        out.push(b.as_bytes().to_vec());
+    }
+    let inserts: [&str; 5] = ["\u{e9}", "\u{2657}", "\u{1f600}", "\u{0301}", "\u{a0}"];
+    for (bi, b) in bases.iter().enumerate() {
+        for off in (0..=12usize).chain([b.len() / 2, b.len() - 1, b.len()]) {
+            if off > b.len() || !b.is_char_boundary(off) {
+                continue;
+            }
+            let ins = inserts[(bi + off) % inserts.len()];
+            let mut t = b.clone();
+            t.insert_str(off, ins);
+            out.push(t.into_bytes());
+            // and replacing the byte at that offset
+            if off < b.len() {
+                let mut t = b.clone();
+                t.replace_range(off..off + 1, inserts[(bi + off + 1) % inserts.len()]);
+                out.push(t.into_bytes());
+            }
+        }
+    }
+    for p in ["fen ", "FEN ", "fen", "position fen ", "startpos", " ", "", "\t", "-", "--", "-h", "--help", "w", "/", "8", "8/8/8/8/8/8/8/8", "\u{feff}rnbqkbnr/pppppppp/8/8/8/8/PPPPPPPP/RNBQKBNR w KQkq - 0 1"] {
+        out.push(p.as_bytes().to_vec());
+        out.push(format!("{p}{}", bases[0]).into_bytes());
+    }
+    out.push(vec![0xff, 0xfe, b'/', b'8']);
+    out.push(b"rnbqkbnr/pppppppp/8/8/8/8/PPPPPPPP/RNBQKBN\xf0 w KQkq - 0 1".to_vec());
+    out.push(b"rnbq\x80bnr/pppppppp/8/8/8/8/PPPPPPPP/RNBQKBNR w KQkq - 0 1".to_vec());
+    out.push("8/".repeat(4000).into_bytes());
+    out.push("9".repeat(70000).into_bytes());
+    // generated: token soup over the FEN alphabet with occasional multi-byte characters
+    let mut g = Expand(seed ^ 0x0c06);
+    let toks: [&str; 24] = ["r", "n", "b", "q", "k", "p", "R", "N", "B", "Q", "K", "P", "/", "8", "1", " ", "w", "b", "-", "KQkq", "e3", "0", "\u{e9}", "\u{1f600}"];
+    for _ in 0..n_generated {
+        let mut t = String::new();
+        for _ in 0..1 + g.below(40) {
+            t.push_str(toks[g.below(toks.len() as u64) as usize]);
+        }
+        out.push(t.into_bytes());
+    }
+    out.retain(|a| !a.contains(&0));
+    out
+}
+
+fn cli_stage(ctx: &WorkerCtx, st: &mut Stats) -> Result<(), Fail> {
+    let bin = std::env::var("VERIF_CHESS_CLI").unwrap_or_else(|_| "/verif/target/release/chess-cli".to_string());
+    if !std::path::Path::new(&bin).exists() {
+        st.class("CLI stage skipped: chess-cli binary not built");
+        return Ok(());
+    }
+    let args = cli_args(ctx.seed, ctx.tier.pick(150, 1500));
+    let results: Vec<(usize, Result<&'static str, String>)> = std::thread::scope(|sc| {
+        let mut out = vec![];
+        for (ci, chunk) in args.chunks(12).enumerate() {
+            let hs: Vec<_> = chunk
+                .iter()
+                .enumerate()
+                .map(|(j, a)| {
+                    let bin = bin.clone();
+                    (ci * 12 + j, sc.spawn(move || crate::enums::cli_scenario_bytes(&bin, Some(a), "C06", "the position argument is untrusted input: the parser and the front end around it must answer with a board or an error")))
+                })
+                .collect();
+            for (i, h) in hs {
+                out.push((i, h.join().unwrap_or_else(|_| Ok("CLI scenario: harness thread failed (no verdict)"))));
+            }
+        }
+        out
+    });
+    for (i, r) in results {
+        match r {
+            Ok(c) => {
+                st.class(c);
+                st.eval(1);
+            }
+            Err(d) => return Err(Fail { case: json!({"cli_arg": args[i]}), detail: d }),
+        }
+    }
+    Ok(())
+}
+
 fn worker(ctx: &WorkerCtx) -> Result<(), Fail> {
     if ctx.idx == 0 {
         let mut st = ctx.stats.borrow_mut();
         directed(&mut st)?;
     }
+    if ctx.idx == 1 % ctx.n {
+        let mut st = ctx.stats.borrow_mut();
+        cli_stage(ctx, &mut st)?;
+    }
     run_proptest(ctx, 6, ctx.share(ctx.tier.pick(1_500_000, 30_000_000)), strategy(), |c| serde_json::to_value(c).unwrap(), run_case)
 }
 
 fn replay(v: &Value) -> Result<(), String> {
+    if let Some(b) = v.get("cli_arg") {
+        let bytes: Vec<u8> = b.as_array().ok_or("bytes")?.iter().map(|x| x.as_u64().unwrap_or(0) as u8).collect();
+        let bin = std::env::var("VERIF_CHESS_CLI").unwrap_or_else(|_| "/verif/target/release/chess-cli".to_string());
+        if !std::path::Path::new(&bin).exists() {
+            return Err("chess-cli binary not built: cannot replay a CLI case".into());
+        }
+        return crate::enums::cli_scenario_bytes(&bin, Some(&bytes), "C06", "the position argument is untrusted input").map(|_| ());
+    }
     if let Some(b) = v.get("directed_bytes") {
         let bytes: Vec<u8> = b.as_array().ok_or("bytes")?.iter().map(|x| x.as_u64().unwrap_or(0) as u8).collect();
         return check_bytes(&bytes).map(|_| ());
